@@ -1,9 +1,9 @@
 SPEC = {
     "id": "C12",
-    "n": {"quick": 500, "thorough": 20000},
+    "n": {"quick": 1500, "thorough": 30000},
     "components": {"1": "outcome of the call (proceeds / rejected by a limit check / bad input)",
                    "2": "statements, arguments and transaction brackets received by the server",
-                   "3": "set of batched callers that reached the batch function"},
+                   "3": "set of batched callers that reached the batch function", "4": "generated case violates the well-formedness hypotheses of the theorems (harness defect)"},
     "corr_name": "Sql.Model (run, run_batched) vs sqlgen.DB methods on a fake database/sql driver",
     "coq_modules": ["Sql.Model", "Sql.ModelCheck"],
     "harness_timeout": {"quick": 600, "thorough": 3000},
